@@ -689,7 +689,7 @@ def run(rep):
     dis += stage_w_cmdwrap(rep, rng, lists)
     stage_r_msvcrt(rep, rng, strings, lists, n)
     found = stage_oracle_quote(rep, rng, strings, lists, n * (10 if dis else 1))
-    if dis and not found:
+    if dis and not rep.n_with_input:
         i, call, iv, mv = dis[0]
         rep.fail('W:%s - model and implementation disagree (%d cases), e.g. %r: impl %r, model %r' % (
             call[0], len(dis), call[1], iv, mv),
